@@ -81,9 +81,16 @@ register('C07', 'proof',
                       'Context.invalidate_failed as a whole (clause 4 over all processes of the lost instances): its contract '
                       '(contracts/pending_c07_invalidate_failed.txt) executes entirely and its instance-level clauses '
                       'discharge, but the call precondition of invalidate_identifier (object invariant I11 for every '
-                      'process) is undecided within the budget, so it is NOT part of this check; the expected defect '
-                      'A11 (STOPPING-only copy on a lost instance stays listed) is reproduced natively only '
-                      '(findings/C07_invalidate_failed_stopping_demo.py)',
+                      'process) is undecided within the budget, so it is NOT part of this check. Its process-level clause '
+                      'is decomposed instead: SupvisorsInstanceStatus.running_processes (the processes handed to '
+                      'invalidate_identifier) is proved equal to its definition, ProcessStatus.invalidate_identifier is '
+                      'proved in C11, and the lemma "every process listed on the lost instance is selected" is REFUTED = '
+                      'known finding A11 (STOPPING-only copy stays listed; native demo '
+                      'findings/C07_invalidate_failed_stopping_demo.py); the composition over the two loops is not proved',
+                      'SupervisorProxyThread.handle_exception is verified as SEQUENTIAL code (a failed XML-RPC to a peer in '
+                      'any active state - CHECKING, CHECKED, RUNNING, FAILED - pushes exactly one INSTANCE_FAILURE '
+                      'notification carrying the origin of that peer; none for the local instance or an inactive peer); '
+                      'the proxy thread / main thread interleaving and the transport up to read_notification are assumed',
                       'reachability through the proxy-thread race of the STOPPED status met by on_instance_failure '
                       '(reproduced at function level after a real history, the interleaving itself is not modelled)'],
          assumptions=['the local TICK reaches on_tick (Supervisor event loop) and XML-RPC failure notifications are '
@@ -220,12 +227,20 @@ register('C01', 'other',
          'iff these instances declare one and the same Master and none is without Master, update_instance_state resets '
          'the Master when it leaves RUNNING, forgets the declaration of a STOPPED / ISOLATED peer (fresh StateModes) and '
          'leaves the rest of the local view untouched, get_stable_running_identifiers is the RUNNING set of a peer iff all '
-         'the states it publishes are stable. Agreement between instances is NOT proved (property of N interleaved FSMs).',
+         'the states it publishes are stable. select_master (the election rule, pools read in the pre-state): the Master '
+         'chosen is among the Masters recognised (declared, non-empty, by the instances seen RUNNING) if any, else among '
+         'the instances seen RUNNING; it is a core_identifiers member whenever some candidate is one; it has the lowest '
+         'nick identifier of the core candidates, or of all candidates when none is a core member; corollary: a single '
+         'recognised Master is kept; the master_identifier setter declares and publishes it. Known finding: KeyError when '
+         'a recognised Master is unknown to the local mapper (A24). '
+         'Agreement between instances is NOT proved (property of N interleaved FSMs).',
          not_decided=['agreement / convergence over schedules of N instances (no per-call contract expresses it)',
-                      'select_master: the contract transcribed from the rule (contracts/pending_c01_select_master.txt) '
-                      'is undecided within the solver budget and is not part of this check; its expected safe:KeyError '
-                      '(Appendix A24) is therefore not reported by this check',
-                      'evaluate_stability / ElectionState.next guards, Master-only automatic actions (C01.5) - FSM agent'],
+                      'evaluate_stability (the comprehension invariant relating the list of published stable RUNNING sets '
+                      'to the instances seen RUNNING is undecided within the budget: contracts/pending_c01_evaluate_stability.txt); '
+                      'ElectionState.next guards, Master-only automatic actions (C01.5) - FSM agent',
+                      'select_master: a declared Master that is known to the mapper but not seen RUNNING locally is a '
+                      'legitimate candidate of the rule as stated ("the Masters still recognised"); "the Master is seen '
+                      'RUNNING by all" needs the rely condition on peers'],
          assumptions=['rely condition on peers: a publication is an atomic snapshot of a state satisfying the same '
                       'per-instance contracts; FIFO per sender',
                       'structural validity of the per-instance maps (valid_structure / distinct_entries, contracts/c07.py)',
@@ -332,8 +347,10 @@ register('C06', 'proof',
                       'contract of trigger_jobs is ASSUMED (only removes elements), not verified - left undone',
                       '_WorkingState._master_next / on_process_state_event Master-only guards and '
                       'Commander.on_instances_invalidation: not done here',
-                      'Context.invalidate_failed exactness (clause post_failed_exactly, expected refutation A11): carried '
-                      'by the contract of the C07 owner (contracts/c07.py, props include C06)',
+                      'Context.invalidate_failed exactness as a whole: not under contract (see C07); its selection step '
+                      '(SupvisorsInstanceStatus.running_processes) is proved equal to its definition and the lemma "every '
+                      'process listed on the lost instance is selected" is refuted = known finding A11 (contracts/c07.py, '
+                      'props include C06)',
                       'RunningFailureHandler.abort: `self.x = set()` into a typed field is not modelled by the engine '
                       '(false alarm), contract not registered',
                       'start_sequence changes between two handler calls (ApplicationStatus.update_sequences) are outside '
